@@ -130,6 +130,7 @@ def make_class(name, fmts, seed, base_fmts=None, by_value=False):
         ns[f"cw{k}"] = DeviceVar(f)
         ns[f"sh{k}"] = DeviceVar(f, write=True)
         ns[f"esh{k}"] = DeviceVar(f)
+        ns[f"late{k}"] = DeviceVar(f, write=True)      # written by the parent at any time
     cls = type(name, bases, ns)
     cls.__module__ = __name__
     cls.__qualname__ = name
@@ -192,8 +193,23 @@ def run(tape, scenario):
                 viol("group-cannot-be-created", f"earlier group: {type(e).__name__}: {e}",
                      exception=type(e).__name__)
                 return
+        sg = None
+        if tape.chance("fault/no-shared-memory-at-first", 15):
+            # the first attempt to make the group finds no shared memory (too many open
+            # files, /dev/shm full): it fails, the application tries again
+            fired = []
+            env.spawn_ctx.array_fault = lambda: (
+                0 if fired else fired.append(1) or tape.pick("fault/shm-errno", [24, 28, 12]))
+            try:
+                sg = ProcessSyncGroup(ec, devices)
+                world.count("c29/group-made-although-shared-memory-failed")
+            except OSError:
+                sg = None
+                world.count("c29/group-creation-failed-without-shared-memory")
+            env.spawn_ctx.array_fault = None
         try:
-            sg = ProcessSyncGroup(ec, devices)
+            if sg is None:
+                sg = ProcessSyncGroup(ec, devices)
         except Exception as e:
             viol("group-cannot-be-created", f"{type(e).__name__}: {e}", exception=type(e).__name__)
             return
@@ -202,7 +218,7 @@ def run(tape, scenario):
             ranges = []
             for di, d in enumerate(devices):
                 for name in ["cmd", "ack"] + [f"{p}{k}" for k in range(d.nvars)
-                                              for p in ("pw", "echo", "cw", "sh", "esh")]:
+                                              for p in ("pw", "echo", "cw", "sh", "esh", "late")]:
                     fmt = type(d).__dict__[name].fmt
                     pos = d.__dict__[name]
                     ranges.append((pos, pos + (8 if fmt == "x" else struct.calcsize(fmt)),
@@ -249,7 +265,38 @@ def run(tape, scenario):
                 for d in devices:
                     d.cmd = r
                 t0 = loop.time()
+                late = {}
+                racing = tape.chance("c29/parent-writes-while-the-child-updates", 50)
+
+                def write_late():
+                    # the parent stores into variables of its own while the child is at
+                    # work: the child gets to run between the lines of the library's store
+                    import sys
+                    from ebpfcat.arraymap import ArrayGlobalVarDesc
+                    code = ArrayGlobalVarDesc.__set__.__code__
+
+                    def between(frame, event, arg):
+                        if event == "line":
+                            sched.yield_point("mem/store", hot=True)
+                        return between
+
+                    def tracer(frame, event, arg):
+                        return between if frame.f_code is code else None
+                    for di, d in enumerate(devices):
+                        for k, f in enumerate(d.fmts):
+                            if f == "x" or not tape.chance("c29/late-write", 40):
+                                continue
+                            v = shape(f, tape.draw("c29/late-value", 1 << 30) * 40503 + 1)
+                            sys.settrace(tracer)
+                            try:
+                                setattr(d, f"late{k}", v)
+                            finally:
+                                sys.settrace(None)
+                            late[(di, k)] = v
+                            world.count("c29/parent-write-while-the-child-may-update")
                 while not all(d.ack == r for d in devices):
+                    if racing:
+                        write_late()
                     if task.done():
                         e = None if task.cancelled() else task.exception()
                         viol("child-ended-early", f"round {r}: wait_for_process ended: {e!r}",
@@ -286,6 +333,9 @@ def run(tape, scenario):
                                  f"round {r} device {di} shared var {k} ({f}): child wrote "
                                  f"{want!r} over the parent's {shared[(di, k)]!r}, the parent "
                                  f"reads {sh!r}", fmt=f, shared=True)
+                        if (di, k) in late and not same(f, getattr(d, f"late{k}"), late[(di, k)]):
+                            viol("own-write-changed", f"round {r} device {di} late var {k} ({f}): "
+                                 f"{late[(di, k)]!r} became {getattr(d, f'late{k}')!r}", fmt=f)
                         back = getattr(d, f"pw{k}")
                         if not same(f, back, written[(di, k)]):
                             viol("own-write-changed", f"round {r} device {di} var {k} ({f}): "
